@@ -48,23 +48,25 @@ Proof.
 Qed.
 
 (* ---- R_repeat_unroll --------------------------------------------------------------------------- *)
-Theorem repeat_unroll enc l1 l2 n body :
+Theorem repeat_unroll_lit enc l1 l2 st u1 u2 nn body :
   forallb (plainf (lnames (l1 ++ l2))) body = true ->
-  assemble enc (l1 ++ [Repeat (numlit n) body] ++ l2) = assemble enc (l1 ++ concat (repeat body n) ++ l2).
+  assemble enc (l1 ++ [Repeat (Lit (LNum false st u1 u2 nn)) body] ++ l2) =
+  assemble enc (l1 ++ concat (repeat body (N.to_nat nn)) ++ l2).
 Proof.
-  intros Hp. set (names := lnames (l1 ++ l2)) in *.
+  intros Hp. set (names := lnames (l1 ++ l2)) in *. set (n := N.to_nat nn).
   assert (Qb : Forall quiet body).
   { apply Forall_forall. intros x Hx. rewrite forallb_forall in Hp. apply (plainf_quiet names). auto. }
   apply (segment_law enc (irel names) names).
   - intros m Hm. apply smem_In. exact Hm.
   - constructor; [|constructor]. apply (plainf_quiet names). rewrite plainf_repeat. rewrite Hp. reflexivity.
   - induction n; simpl; [constructor|]. apply Forall_app. split; assumption.
-  - intros alldefs allkeys exports fuel st HK HT.
-    cbn [Asm.lay_list]. rewrite lay_stmt_repeat. unfold Asm.lev, numlit. rewrite xeval_lit. cbn [lit_value lift xbind].
-    rewrite nat_N_Z, gai_count. cbn [lift xbind]. rewrite Nat2Z.id.
-    pose proof (iter_unroll enc alldefs allkeys exports fuel names HK body Hp n st HT) as RR.
-    destruct (iter_x n (Asm.lay_list enc alldefs allkeys exports fuel true body) st) as [[s1 d1]| | | |],
-             (Asm.lay_list enc alldefs allkeys exports fuel false (concat (repeat body n)) st) as [[s2 d2]| | | |];
+  - intros alldefs allkeys exports fuel s0 HK HT.
+    cbn [Asm.lay_list]. rewrite lay_stmt_repeat. unfold Asm.lev. rewrite xeval_lit. cbn [lit_value lift xbind].
+    replace (Z.of_N nn) with (Z.of_nat n) by (unfold n; apply N_nat_Z).
+    rewrite gai_count. cbn [lift xbind]. rewrite Nat2Z.id.
+    pose proof (iter_unroll enc alldefs allkeys exports fuel names HK body Hp n s0 HT) as RR.
+    destruct (iter_x n (Asm.lay_list enc alldefs allkeys exports fuel true body) s0) as [[s1 d1]| | | |],
+             (Asm.lay_list enc alldefs allkeys exports fuel false (concat (repeat body n)) s0) as [[s2 d2]| | | |];
       simpl in RR; try contradiction; try discriminate; simpl; auto.
     destruct RR as [Es Rd]. simpl in *. subst. rewrite app_nil_r. split; [reflexivity|exact Rd].
   - intros exports T it it' HT [Ea [Es [Ez [Ef Hsc]]]]. split; [exact Ez|].
@@ -72,6 +74,11 @@ Proof.
     destruct (i_scope it) as [f k1], (i_scope it') as [f' k2]. simpl in Ef. subst f'.
     apply (emit_leaf_agree enc names); auto. intros e He. apply (fev_scope enc exports names); assumption.
 Qed.
+
+Theorem repeat_unroll enc l1 l2 n body :
+  forallb (plainf (lnames (l1 ++ l2))) body = true ->
+  assemble enc (l1 ++ [Repeat (numlit n) body] ++ l2) = assemble enc (l1 ++ concat (repeat body n) ++ l2).
+Proof. intros H. unfold numlit. rewrite (repeat_unroll_lit enc l1 l2 _ _ _ _ body H), Nat2N.id. reflexivity. Qed.
 
 (* ---- R_insert_is_bytes ------------------------------------------------------------------------- *)
 Lemma value_bytes_byte b : 0 <= b < 256 -> value_bytes W8 b = [b].
